@@ -207,6 +207,65 @@ func runC15(p *core.Prog, r *core.Report, tier string) {
 	}
 	r.Floor("C15.e per-member loops", nLoops, 4)
 
+	// ---- (i) a member's entry of a batch is left out only for a reason of its own (no account, no signature):
+	// the branches that decide whether the account of the member at hand joins the batch are nil/presence tests,
+	// never the state left behind by other members (a local "seen" set) ----
+	nJoin := 0
+	for _, rel := range []string{scmRel, scaRel} {
+		for _, f := range p.FuncsIn(rel) {
+			core.EachInstr(f, func(in ssa.Instruction) {
+				c, ok := in.(*ssa.Call)
+				if !ok || !core.InLoop(in) {
+					return
+				}
+				b, ok := c.Call.Value.(*ssa.Builtin)
+				if !ok || b.Name() != "append" {
+					return
+				}
+				sl, ok := c.Type().Underlying().(*types.Slice)
+				if !ok || !(strings.Contains(sl.Elem().String(), "wallet-types") && strings.HasSuffix(sl.Elem().String(), ".Account")) {
+					return
+				}
+				nJoin++
+				k := 0
+				for _, sc := range skipConditions(ds, f, in) {
+					k++
+					ok := sc.Kind == "nil test" || sc.Kind == "presence flag" || sc.Kind == "emptiness test"
+					r.Check(ok, "C15.i", fmt.Sprintf("%s|joins-batch#%d|condition#%d", core.FnKey(f), nJoin, k), p.Pos(core.IfPos(sc.If)), "the member is left out only on a "+sc.Kind+" of its own data",
+						"a committee member's entry can be left out of the batch on a condition that is not a nil/presence test of its own data ("+orStr(sc.Kind, "unrecognised condition")+"): what other members did decides whether this member gets its selection proof / message / contribution")
+				}
+			})
+		}
+	}
+	r.Floor("C15.i account batch appends in per-member loops", nJoin, 2)
+
+	// ---- (j) sync committee duties are set up for the sync-committee-eligible validators (which include exited
+	// validators still sitting in a committee), never for the attesting-active set ----
+	nElig := 0
+	for _, f := range p.FuncsIn("services/controller/standard") {
+		for _, wf := range core.WithClosures(f) {
+			if wf != f {
+				continue
+			}
+			for _, ci := range core.Calls(wf, func(c *ssa.CallCommon) bool {
+				callee := c.StaticCallee()
+				return callee != nil && callee.Name() == "scheduleSyncCommitteeMessages"
+			}) {
+				for _, a := range ci.Common().Args {
+					sl, ok := a.Type().Underlying().(*types.Slice)
+					if !ok || !strings.HasSuffix(sl.Elem().String(), "phase0.ValidatorIndex") {
+						continue
+					}
+					nElig++
+					d := ds.D(a)
+					r.Check(d.MentionsCall("syncCommitteeIndicesForEpoch"), "C15.j", fmt.Sprintf("%s|eligible-validators#%d", core.FnKey(wf), nElig), p.Pos(ci.Pos()), "sync committee messages are scheduled for the sync-committee-eligible validators",
+						"sync committee messages are scheduled for "+d.String()+", which is not the sync-committee-eligible set: an exited validator that is still a committee member gets no duty for the whole period")
+				}
+			}
+		}
+	}
+	r.Floor("C15.j sync committee scheduling calls", nElig, 5)
+
 	// ---- (f) index spaces ----
 	decided, unknown := 0, 0
 	for _, rel := range []string{scmRel, scaRel} {
@@ -640,4 +699,11 @@ func checkForkEpochFlow(p *core.Prog, r *core.Report, ds *core.Describer, rule s
 			"the fork epoch fetched by "+core.CalleeName(fetch.Common())+" never reaches the function's result (it is assigned to a shadowed variable): the caller always sees the zero/default epoch")
 	}
 	r.Floor(rule+" fork-detail functions", n, 2)
+}
+
+func orStr(a, b string) string {
+	if a != "" {
+		return a
+	}
+	return b
 }
